@@ -36,7 +36,7 @@ ASSUMPTIONS = ["reference model: reads are no-ops, selections are snapshots, a[.
                "known finding 'lazy-view-write-through' is classified by an explicit buffer-sharing model; only deviations equal to that model are attributed to it"]
 REQUIRED_FEATURES = ["pending_selection", "read_materialises", "read_is_self_loop", "write_after_read", "alias_derivation",
                      "three_variables", "selection_of_selection", "write_through_alias"]
-BOUNDS = {"quick": "2 base arrays, 3 variables, every history of depth <= 4 over 8 selectors x 6 writes x 14 reads (all variables / sources), "
+BOUNDS = {"quick": "2 base arrays, 3 variables, every history of depth <= 4 over 9 selectors x 6 writes x 18 reads (all variables / sources), "
                    "plus depth 5 for histories whose first two steps are derivations",
           "thorough": "3 base arrays, depth <= 5 complete, depth 6 after two derivations"}
 
@@ -47,13 +47,15 @@ PARTS = {"quick": 16, "thorough": 64}
 SELS = {
     "rows+": ["s", 1, None, None], "rows-": ["s", None, None, -1], "list": None, "mask": None,
     "cols+": ["t", ["s", None, None, None], ["s", 1, None, None]], "cols-": ["t", ["s", None, None, None], ["s", None, None, -1]],
+    "cols2": ["t", ["s", None, None, None], ["s", None, None, 2]],
     "E": "E", "T0": "T0",
 }
 ALIAS = ("E", "T0")
 WRITES = ["row0", "col0", "fill", "cell", "rows1", "from"]
 # read name -> touches (materialises a pending variable)?
 READS = {"meta": False, "repr": True, "tolist": True, "ravel": True, "x[0]": True, "x[1:]": False, "x[:,::-1]": False,
-         "x[0,0]": True, "x+1": True, "sum-1": True, "sum0": True, "concat": True, "x[...]": True, "x+y": True}
+         "x[0,0]": True, "x+1": True, "sum-1": True, "sum0": True, "concat": True, "x[...]": True, "x+y": True,
+         "x[:,::2]": False, "x[mask]": True, "rslice": True, "col_counts": False}
 VARS = ["a", "b", "c"]
 
 
@@ -221,7 +223,7 @@ def enabled(snap):
                 continue
             if r == "x[0,0]" and (n < 1 or not rows[0]):
                 continue
-            if r == "sum0" and not any(rows):
+            if r in ("sum0", "col_counts") and not any(rows):
                 continue
             if r == "x+y":
                 for y in live:
@@ -277,6 +279,16 @@ def do_read(x, r, y=None):
         return x[...]
     if r == "x+y":
         return x + y
+    if r == "x[:,::2]":
+        return x[:, ::2]
+    if r == "x[mask]":
+        from mc.checks.c06 import _indep_mask
+        return x[_indep_mask(x)]
+    if r == "rslice":
+        from npstructures import ragged_slice
+        return ragged_slice(x, np.minimum(1, np.asarray(x.lengths)))
+    if r == "col_counts":
+        return x.col_counts()
     raise ValueError(r)
 
 
